@@ -14,6 +14,13 @@ FocusNext == /\ \/ last.a \in {"init", "rejuvenate"}
                    /\ EditStepR({0}, {L}, {2..4, 1..5, 2..5}, {})
                 \/ last.a \notin {"init", "rejuvenate"} /\ Rejuvenate
              /\ h' = Append(h, last')
+\* shifting run: root windows of equal size (which events pass changes, how
+\* many does not: the filter arrays of intermediate levels stay identical),
+\* manual edits only on the youngest member
+ShiftNext == /\ \/ last.a \in {"init", "rejuvenate"}
+                   /\ EditStepR({0}, {L}, {1..3, 2..4, 3..5}, {})
+                \/ last.a \notin {"init", "rejuvenate"} /\ Rejuvenate
+             /\ h' = Append(h, last')
 Emit == (Len(h) = MaxDepth) => PrintT(<<"H", ToJson(h)>>)
 HCon == Len(h) <= MaxDepth /\ Emit
 =============================================================================
